@@ -116,6 +116,65 @@ Fixpoint wobs_list_eqb (a b : list wobs) : bool :=
   | _, _ => false
   end.
 
+(* ---------- structural tie, DATAFLOW: every recorded Crypto.WrapKey call ----------
+   The recorder names the concrete values of each call: the recipient public key handed in (key name), the key behind
+   the sender-handle option, the ephemeral key of the result (index of its first appearance: the model's ephemeral key
+   names are rn_eph + index), the content key handed in (index likewise), what apu / apv of the result ARE (empty, the
+   sender key reference, base64url of the ephemeral key, SHA-256 of the sorted recipient references, anything else),
+   whether a tag was passed and is the envelope's tag, and the resulting alg.  The model re-assembles each call with
+   the term algebra's wrap equation (wrap_of_call) and the result must be, recipient by recipient, EXACTLY the
+   encrypted-key sub-term of the model's envelope: alg, both DH secrets, apu, apv, tag and content key at once. *)
+Inductive named := NEmpty | NSkid (k : kref) | NEpk | NKids (ks : list kref) | NOther.
+Record wcall := mkwcall { wc_alg : kwalg; wc_rcpt : N; wc_sender : option N; wc_epk : N; wc_cek : N;
+                          wc_apu : named; wc_apv : named; wc_tag : option bool }.
+Definition named_term (e : N) (n : named) : term :=
+  match n with
+  | NEmpty => Tup [] | NSkid k => t_kref k | NEpk => apu_es (Pub e) | NKids ks => apv_1pu ks | NOther => Junk 7
+  end.
+Definition wrap_of_call (rn : rnd) (j : jwe) (c : wcall) : term :=
+  let e := rn_eph rn + wc_epk c in
+  let cek := Kdf [Bytes 908; Bytes (rn_cek rn + wc_cek c)] in
+  let apu := named_term e (wc_apu c) in
+  let apv := named_term e (wc_apv c) in
+  let tag := match wc_tag c with Some true => j_tag j | Some false => Junk 8 | None => Tup [] end in
+  if is_1pu (wc_alg c) then
+    match wc_sender c with
+    | Some s => Wrap (kek_1pu (wc_alg c) (dh e (wc_rcpt c)) (dh s (wc_rcpt c)) apu apv tag) cek
+    | None => Junk 9
+    end
+  else match wc_sender c, wc_tag c with
+       | None, None => Wrap (kek_es (wc_alg c) (dh e (wc_rcpt c)) apu apv) cek
+       | _, _ => Junk 10      (* an ECDH-ES wrap is never given a sender key or a tag *)
+       end.
+Fixpoint terms_eqb (a b : list term) : bool :=
+  match a, b with
+  | [], [] => true
+  | x :: a', y :: b' => term_eqb x y && terms_eqb a' b'
+  | _, _ => false
+  end.
+Definition calls_match (rn : rnd) (w : wire) (cs : list wcall) : bool :=
+  match w with
+  | WJwe j => terms_eqb (map (wrap_of_call rn j) cs) (map r_ek (j_recs j))
+  | _ => match cs with [] => true | _ => false end
+  end.
+
+(* what the model says the calls of a JWE pack ARE (one per recipient, in order) *)
+Fixpoint es_calls (i : N) (a : kwalg) (rcpts : list N) : list wcall :=
+  match rcpts with
+  | [] => []
+  | r :: rest => mkwcall a r None i 0 NEpk NEmpty None :: es_calls (i + 1) a rest
+  end.
+Definition calls_of (c : cfg) (sender : N) (rcpts : list N) : list wcall :=
+  match packer_of c with
+  | JweAnon => es_calls 0 (es_alg (kt_of c)) rcpts
+  | JweAuth => match pu_alg (kt_of c) (enc_of c) with
+               | Some a => map (fun r => mkwcall a r (Some sender) 0 0 (NSkid (kref_for (style_of c) sender))
+                                                 (NKids (map (kref_for (style_of c)) rcpts)) (Some true)) rcpts
+               | None => []
+               end
+  | _ => []
+  end.
+
 Record case := { c_cfg : cfg; c_viapk : bool; c_spar : list N; c_payload : N; c_sender : N; c_rcpts : list N;
                  c_refs : option (directory * ref * list ref);
                  (* transport form handed to packager.UnpackMessage (0: the envelope, 1: "<base64url>", 2: padded) and
@@ -130,6 +189,8 @@ Record case := { c_cfg : cfg; c_viapk : bool; c_spar : list N; c_payload : N; c_
                  c_prim : option prim;
                  (* the recorded WrapKey calls of the pack (JWE packers; None: not recorded) *)
                  c_wraps : option (list wobs);
+                 (* the same calls with their dataflow named (None: not recorded) *)
+                 c_calls : option (list wcall);
                  (* per unpacking party (same order as c_unp): the recorded UnwrapKey calls of its Unpack (None: not recorded) *)
                  c_att : list (option (list attempt));
                  c_packed : bool; c_unp : list (list N * uobs) }.
@@ -163,6 +224,7 @@ Definition check_case (c : case) : bool :=
   | Ok w =>
       c_packed c &&
       match c_wraps c with Some l => wobs_list_eqb l (wraps_of w) | None => true end &&
+      match c_calls c with Some l => calls_match rnd0 w l | None => true end &&
       forallb (fun pa => match snd pa with Some l => attempts_eqb l (attempts Fixed (fst (fst pa)) w) | None => true end)
               (combine (c_unp c) (c_att c)) &&
       forallb (fun po => uobs_eqb (snd po)
